@@ -184,7 +184,8 @@ impl Ctx {
         // the parser may never offer the source a buffer reaching beyond this offset
         let limit = match tz.term {
             "end" => endv,
-            "bad" => tz.bad_at.unwrap_or(data.len()),
+            // a malformed stream: no property limits what is consumed before it is rejected
+            "bad" => data.len() + 70000,
             _ => data.len() + 70000,
         };
         let ev = json!({"ev": "msg", "id": id, "elems": tz.elems, "avail": data.len(), "endv": endv, "limit": limit, "term": tz.term,
